@@ -59,8 +59,9 @@ func (ex *Exec) assignsActive() bool {
 
 // writeObj: a write to (key, ref) for field/cell/map keys.
 func (ex *Exec) writeObj(st *State, key, ref string) {
-	if !ex.isFreshTerm(ref) && !strings.HasSuffix(key, ".held") {
+	if !ex.isFreshTerm(ref) && !strings.HasSuffix(key, ".held") && !ex.interfering && ex.specMode == 0 {
 		ex.ownWrites++
+		ex.noteOwnWrite(key)
 	}
 	if !ex.assignsActive() || ex.isFreshTerm(ref) {
 		return
@@ -116,8 +117,11 @@ func (ex *Exec) ownerOf(ref string) string {
 
 // writeMem: a write to memory cells [lo,hi) (absolute indices) of base, for the given keys.
 func (ex *Exec) writeMem(st *State, keys []string, base, lo, hi string) {
-	if !ex.isFreshTerm(base) {
+	if !ex.isFreshTerm(base) && ex.specMode == 0 {
 		ex.ownWrites++
+		for _, k := range keys {
+			ex.noteOwnWrite(k)
+		}
 	}
 	if !ex.assignsActive() || ex.isFreshTerm(base) || len(keys) == 0 {
 		return
@@ -152,7 +156,10 @@ func (ex *Exec) writeMem(st *State, keys []string, base, lo, hi string) {
 }
 
 func (ex *Exec) writeGlobal(st *State, key string) {
-	ex.ownWrites++
+	if ex.specMode == 0 {
+		ex.ownWrites++
+		ex.noteOwnWrite(key)
+	}
 	if !ex.assignsActive() {
 		return
 	}
@@ -221,4 +228,22 @@ func (ex *Exec) callAssigns(st *State, locs []modLoc) {
 			}
 		}
 	}
+}
+
+
+func (ex *Exec) noteOwnWrite(key string) {
+	if ex.ownWritten == nil {
+		ex.ownWritten = map[string]bool{}
+	}
+	if !ex.ownWritten[key] {
+		ex.note("this function writes %s of an object that existed before it ran (%s)", key, ex.curPosString())
+	}
+	ex.ownWritten[key] = true
+}
+
+func (ex *Exec) curPosString() string {
+	if ex.curPos.IsValid() {
+		return ex.P.pos(ex.curPos)
+	}
+	return "?"
 }
